@@ -273,7 +273,7 @@ def _wire(prop, tier, seed, core, targets, rule):
 def c19(prop, tier, seed, core):
     return _wire(prop, tier, seed, core, [("jaeger", 3, 80, 16), ("datadog", 3, 60, 16), ("otel", 2, 150, 10)],
                  "seeded random SpanRecord batches (0-2000 records; ids 0 / 1 / MAX / top bit / random; empty, long, multi-byte, NUL strings; duplicate "
-                 "keys; 0-20 events) are given to the real reporters. Jaeger: datagrams received on a loopback UDP socket are decoded by an independent "
+                 "keys; 0-20 events, and now and then one record with 129-1500 events and/or 129-600 properties, beyond the default span limits of the OpenTelemetry SDK) are given to the real reporters. Jaeger: datagrams received on a loopback UDP socket are decoded by an independent "
                  "Thrift compact decoder (message header, Batch, Process, Span, Tag, Log) and compared field by field, no trailing bytes; an "
                  "independent encoder is cross-checked against the real bytes. Datadog: a loopback HTTP/1.1 listener captures request line, headers "
                  "and body, an independent msgpack decoder checks the [[span..]] shape and every field (meta as a map, last duplicate wins). "
